@@ -430,3 +430,6 @@ VERIF_HARNESS(h_reset_same_level)
 //@harness h_hist param k=3 param op0=2 param loc0=1..6 tier=thorough loop=40 leak=1 paths=100000 wall=3000
 //@harness h_hist4 param loc0=0,1,4 tier=thorough loop=40 leak=1 paths=200000 wall=3000
 //@harness h_reset_same_level param obj=0..1 tier=quick loop=40 leak=1
+// objects through the three constructors with sets in between, emission and formatter() text (this line was lost when the
+// thorough list was resized; restored)
+//@harness h_objects param how=0..1 param l0=0..6 tier=quick loop=40 leak=1
